@@ -40,6 +40,16 @@ def ingest_anatomy(ctx: Any) -> Dict[str, Any]:
             an['remove'].append(s.node)
         elif any(t.endswith('async_mark_unique_records_older_than_1s_to_expire') for t in tg):
             an['mark'].append(s.node)
+    # a phase may also be inlined: a loop over the listeners that delivers on the loop variable
+    an['phase_loops'] = {}
+    for lp in walk_local_ordered(f.node):
+        if isinstance(lp, ast.For) and isinstance(lp.target, ast.Name):
+            for c in ast.walk(lp):
+                if isinstance(c, ast.Call) and isinstance(c.func, ast.Attribute) and isinstance(c.func.value, ast.Name) and c.func.value.id == lp.target.id:
+                    k = {'async_update_records': 'notify', 'async_update_records_complete': 'complete'}.get(c.func.attr)
+                    if k:
+                        an[k].append(c)
+                        an['phase_loops'][id(c)] = lp
     for k in ('notify', 'complete', 'add', 'remove', 'mark'):
         if not an[k]:
             raise AnalysisError(f'anchor vanished: no `{k}` call in {f.where()}')
@@ -177,6 +187,17 @@ def order(ctx: Any) -> List[Ob]:
     def eff2(node: Any, evl: Any) -> List[Any]:
         return [labels[id(c)] for c in node.calls() if id(c) in labels]
 
+    phase_loop_nodes = list(an['phase_loops'].values())
+
+    def phase_iter(node: Any, evl: Any) -> Any:
+        """An inlined phase loop runs once (some listener is registered) unless its iterable is known to be empty."""
+        if not any(node.ast is lp for lp in phase_loop_nodes):
+            return None
+        v = evl.ev(node.ast.iter)
+        if v is not fd.UNKNOWN and hasattr(v, '__len__') and len(v) == 0:
+            return False
+        return True
+
     # which add collection holds the address records?  the one fed under the `in _ADDRESS_RECORD_TYPES` test
     addr_coll = None
     for t in ast.walk(loop):
@@ -206,7 +227,7 @@ def order(ctx: Any) -> List[Ob]:
         if (any_add or any_rem) and not has_upd:
             continue  # excluded by part (i)
         atoms = {k: (['x'] if v else []) for k, v in asg.items()}
-        oc, und = traces(ctx, f, atoms, eff2)
+        oc, und = traces(ctx, f, atoms, eff2, loop_bound=1, for_iter=phase_iter)
         got = {strip_ret(t) for t in oc}
         want: List[str] = []
         if any(asg[u] for u in an['unique']):
@@ -225,8 +246,12 @@ def order(ctx: Any) -> List[Ob]:
     # exactly-once: notify and complete have one call site each, outside any loop
     for k, what in (('notify', 'async_updates'), ('complete', 'async_updates_complete')):
         sites = an[k]
-        in_loop = [c for c in sites if any(c is x for n in cfg.nodes if n.in_loop for x in n.calls())]
-        obs.append(ob(R, f, f'{len(sites)} call(s) of {what}', f'listeners get {what} exactly once per datagram (one call site, outside any loop)', len(sites) == 1 and not in_loop))
+        def own_loops(c: ast.Call) -> List[ast.AST]:
+            return [lp for n in cfg.nodes if any(c is x for x in n.calls()) for lp in n.in_loop]
+
+        # a call of the helper outside any loop, or an inlined delivery inside exactly its own loop over the listeners
+        stray = [c for c in sites if [lp for lp in own_loops(c) if lp is not an['phase_loops'].get(id(c))]]
+        obs.append(ob(R, f, f'{len(sites)} site(s) delivering {what}', f'listeners get {what} exactly once per datagram (one site, in no loop other than the one over the listeners)', len(sites) == 1 and not stray))
     # `updates` keeps datagram order: initialised as a list and only appended to
     init_ok = False
     for st in f.node.body:
@@ -261,6 +286,38 @@ def snapshot(ctx: Any) -> List[Ob]:
                 )
             )
             obs.append(ob(R, f, it, 'listener callbacks run over a snapshot of the listener set', copy))
+    # inlined phases of the ingestion function: each phase loop iterates its own snapshot, and the snapshot of the completion
+    # phase is taken after the first phase has run (a listener added or removed by a first-phase callback is honoured)
+    an = ingest_anatomy(ctx)
+    f = an['f']
+    me = f.params[0]
+    cfg = cfg_of(f.node)
+
+    def is_copy(e: ast.AST) -> bool:
+        if isinstance(e, ast.IfExp):
+            return is_copy(e.body) or is_copy(e.orelse)
+        return isinstance(e, ast.Call) and ((isinstance(e.func, ast.Attribute) and e.func.attr == 'copy' and self_attr(e.func.value, me) == 'listeners') or (isinstance(e.func, ast.Name) and e.func.id in ('list', 'set', 'tuple', 'frozenset', 'sorted') and bool(e.args) and self_attr(e.args[0], me) == 'listeners'))
+
+    notify_nodes = [n for n in cfg.nodes if any(c is x for x in an['notify'] for c in n.calls())]
+    for k in ('notify', 'complete'):
+        for c in an[k]:
+            lp = an['phase_loops'].get(id(c))
+            if lp is None:
+                continue
+            it = lp.iter
+            if isinstance(it, ast.Name):
+                defs = [n for n in cfg.nodes if n.kind == 'stmt' and isinstance(n.ast, ast.Assign) and any(isinstance(t, ast.Name) and t.id == it.id for t in n.ast.targets)]
+                good = bool(defs) and all(is_copy(d.ast.value) for d in defs)
+                why = '' if good else f'`{it.id}` is not a copy of the listener set'
+                if good and k == 'complete':
+                    stale = [d for d in defs if not any(cfg.dominates(nn, d) for nn in notify_nodes)]
+                    if stale:
+                        good = False
+                        why = f'the snapshot `{it.id}` (line {stale[0].line}) is taken before the first phase runs, so listeners added or removed by a first-phase callback are not honoured'
+            else:
+                good = is_copy(it)
+                why = '' if good else 'the live listener set is iterated'
+            obs.append(ob(R, f, lp.iter, f'the inlined {k} phase iterates a snapshot of the listener set taken for that phase', good, why))
     return obs
 
 
@@ -327,6 +384,23 @@ def refresh_obligations(ctx: Any, R: str) -> List[Ob]:
                     good = False
                     why = f'`{norm(a)}` is not {w}'
         obs.append(ob(R, f, rc_, 'a refresh gives the cached entry the creation time and the (floored) TTL of the record just received', good, why))
+    # --- the floor is decided before anything in the iteration takes the record (or its lifetime) anywhere else
+    tests = [n for n in cfg0.nodes if n.kind == 'test' and cfg0.dominates(n, fnode) and loop in n.in_loop and any(lab is True and (s is fnode or cfg0.dominates(s, fnode)) for s, lab in n.succ)]
+    if not tests:
+        raise AnalysisError('anchor vanished: the test guarding the PTR floor')
+    guard = tests[-1]
+    users = []
+    for n in cfg0.nodes:
+        if loop not in n.in_loop or n is fnode:
+            continue
+        for c in n.calls():
+            if norm(c.func).startswith(('log.', 'logging.')):
+                continue
+            takes = any(norm(a) == recvar for a in list(c.args) + [k.value for k in c.keywords])
+            if takes or c in refresh:
+                users.append((n, c))
+    late = [(n, c) for n, c in users if not cfg0.dominates(guard, n)]
+    obs.append(ob(R, f, late[0][1] if late else fc, 'the pointer-TTL floor is applied before the record is looked up, copied into the cached entry, paired for listeners or queued for the cache', bool(users) and not late, '; '.join(f'line {c.lineno}: `{norm(c)[:60]}` can run before the floor' for _, c in late[:3])))
     return obs
 
 
